@@ -255,6 +255,82 @@ pub fn c11_sectors_beyond_fat() -> R {
     Ok(())
 }
 
+pub fn c11_length_without_sectors() -> R {
+    // directory entries that claim a length but name no first sector (start = END_OF_CHAIN):
+    // permissive open accepts them; growing, shrinking, appending and allocating must not panic
+    for v in [Version::V3, Version::V4] {
+        let sl = v.sector_len();
+        let (buf, mut c) = fresh(v);
+        c.create_stream("/a").unwrap().write_all(&[1u8; 100]).unwrap();
+        c.create_stream("/b").unwrap().write_all(&[2u8; 5000]).unwrap();
+        drop(c);
+        let base = buf.snapshot();
+        let dir_sector = u32::from_le_bytes(base[48..52].try_into().unwrap()) as usize;
+        let ent = |slot: usize| (dir_sector + 1) * sl + 128 * slot;
+        // (slot, field offset, value): slot 0 = root, 1 = /a, 2 = /b
+        let cases: Vec<(&str, Vec<(usize, usize, u64, usize)>)> = vec![
+            ("small stream without sectors", vec![(1, 116, 0xFFFF_FFFE, 4)]),
+            ("large stream without sectors", vec![(2, 116, 0xFFFF_FFFE, 4)]),
+            ("mini stream container without sectors", vec![(0, 116, 0xFFFF_FFFE, 4)]),
+            ("mini stream length not a multiple of 64", vec![(0, 120, 100, 8)]),
+            ("mini stream length shorter than the MiniFAT", vec![(0, 120, 64, 8)]),
+        ];
+        for (what, patches) in cases {
+            let mut bytes = base.clone();
+            for (slot, off, val, width) in patches {
+                let o = ent(slot) + off;
+                bytes[o..o + width].copy_from_slice(&val.to_le_bytes()[..width]);
+            }
+            for step in 0..6 {
+                let b = SharedBuf::new(bytes.clone());
+                let mut c = match CompoundFile::open(b) {
+                    Ok(c) => c,
+                    Err(_) => break,
+                };
+                no_panic(&format!("{:?} {} step {}", v, what, step), || {
+                    for p in ["/a", "/b"] {
+                        match step {
+                            0 => {
+                                if let Ok(mut s) = c.open_stream(p) {
+                                    let _ = s.seek(SeekFrom::End(0));
+                                    let _ = s.write_all(&[9u8; 10]);
+                                    let _ = s.flush();
+                                }
+                            }
+                            1 => {
+                                if let Ok(mut s) = c.open_stream(p) {
+                                    let _ = s.set_len(0);
+                                    let _ = s.set_len(10);
+                                }
+                            }
+                            2 => {
+                                if let Ok(mut s) = c.open_stream(p) {
+                                    let _ = s.set_len(6000);
+                                }
+                            }
+                            3 => {
+                                let _ = c.create_stream(p).map(|mut s| s.write_all(&[7u8; 300]));
+                            }
+                            4 => {
+                                let _ = c.remove_stream(p);
+                            }
+                            _ => {
+                                if let Ok(mut s) = c.open_stream(p) {
+                                    let mut v = Vec::new();
+                                    let _ = s.read_to_end(&mut v);
+                                }
+                            }
+                        }
+                    }
+                    let _ = c.create_stream("/fresh").map(|mut s| s.write_all(&[5u8; 200]));
+                    let _ = c.remove_stream("/fresh");
+                })?;
+            }
+        }
+    }
+    Ok(())
+}
+
 pub fn c12_failed_refill() -> R {
     let (buf, mut c) = fresh(Version::V3);
     let content: Vec<u8> = (0..6000u32).map(|i| (i * 7 + i / 256) as u8).collect();
@@ -443,6 +519,7 @@ pub fn all() -> Vec<(&'static str, &'static str, fn() -> R)> {
         ("C09", "order_code_units", c09_order_code_units),
         ("C11", "corrupt_mini_start", c11_corrupt_mini_start),
         ("C11", "sectors_beyond_fat", c11_sectors_beyond_fat),
+        ("C11", "length_without_sectors", c11_length_without_sectors),
         ("C12", "failed_refill", c12_failed_refill),
         ("C13", "flush_retry", c13_flush_retry),
         ("C13", "failed_set_len", c13_failed_set_len),
